@@ -77,6 +77,24 @@ static bool parseRot(const QString &name, QString &date, int &idx, bool &gz) {
 int main(int argc, char **argv) {
     std::string prop = argv[1]; unsigned long long seed = strtoull(argv[2], 0, 10); int runs = atoi(argv[3]); QString root = argv[4];
     bool avoidKnown = argc > 5 && atoi(argv[5]);   // leave out the input class of a recorded finding (C06: timestamp ties, C09: wall clock != message day)
+    if (prop == "C08") {
+        // large rotated files (sizes around and above typical I/O block sizes): the .gz must still be ONE valid gzip stream of exactly the log
+        for (long long sz : {65537LL, 1048576LL, 1048577LL, 2500000LL, 4200000LL}) {
+            dir = root + QString("/big%1").arg(sz); QDir().mkpath(dir); QString path = dir + "/app.log";
+            std::string content; content.reserve(sz); rng_state = seed * 77ULL + sz;
+            while ((long long)content.size() < sz) { int n = 20 + rnd(60); for (int i = 0; i < n && (long long)content.size() < sz - 1; ++i) content += (char)(rnd(4) ? 'a' + rnd(26) : 32 + rnd(95)); content += '\n'; }
+            { QFile f(path); f.open(QIODevice::WriteOnly); f.write(content.data(), content.size()); f.close(); }
+            { RotatingFileSink sink(path, 0, 0, RotatingFileSink::Options(RotatingFileSink::RotationOnStartup | RotatingFileSink::Compression));
+              LogMessage m(QtInfoMsg, QMessageLogContext("f.cpp", 1, "fn", "cat"), QString("x")); m.setFormattedMessage("first"); sink.send(m); sink.flush(); }
+            QStringList gzs = QDir(dir).entryList(QStringList() << "*.gz", QDir::Files);
+            hist = "pre-existing app.log of " + std::to_string(sz) + " bytes, RotationOnStartup|Compression, one message;";
+            if (gzs.size() != 1) return fail("C08", "expected exactly one compressed rotated file, found " + std::to_string(gzs.size()));
+            bool ok; std::string back = gunzip(QByteArray::fromStdString(readFile(dir + "/" + gzs[0])), ok);
+            if (!ok) return fail("C08", "compressed rotated file " + gzs[0].toStdString() + " (" + std::to_string(sz) + " bytes of log) is not a valid gzip stream");
+            if (back != content) return fail("C08", "gunzip of " + gzs[0].toStdString() + " differs from the rotated log (" + std::to_string(back.size()) + " vs " + std::to_string(content.size()) + " bytes)");
+            QDir(dir).removeRecursively();
+        }
+    }
     for (int run = 0; run < runs; ++run) {
         rng_state = seed * 1000003ULL + run; recs.clear(); seenContent.clear(); appearance.clear(); everSeen.clear(); stamped.clear(); hist.clear();
         dir = root + QString("/run%1").arg(run); QDir().mkpath(dir);
